@@ -179,13 +179,42 @@ func c16Corrupt(batch []*nom.DetailedMomentum, i int, kind string, r *rand.Rand)
 		if len(d.AccountBlocks) != 0 || len(m.Content) != 0 {
 			return false
 		}
+		// applicable at this point: a user block confirmed later whose acknowledged momentum lies below this one,
+		// whose account has no earlier block in between, and (a receive) whose send is not confirmed in between either
+		seenAddr, seenHash := map[types.Address]bool{}, map[types.Hash]bool{}
 		for j := i + 1; j < len(batch); j++ {
 			for _, b := range batch[j].AccountBlocks {
-				if b.BlockType == nom.BlockTypeUserSend || b.BlockType == nom.BlockTypeUserReceive {
+				user := b.BlockType == nom.BlockTypeUserSend || b.BlockType == nom.BlockTypeUserReceive
+				if user && !seenAddr[b.Address] && b.MomentumAcknowledged.Height < m.Height && !(b.BlockType == nom.BlockTypeUserReceive && seenHash[b.FromBlockHash]) {
 					d.AccountBlocks = append(d.AccountBlocks, simnet.CloneBlock(b))
 					return true
 				}
+				seenAddr[b.Address] = true
+				seenHash[b.Hash] = true
+				for _, x := range b.DescendantBlocks {
+					seenHash[x.Hash] = true
+				}
 			}
+		}
+		// otherwise a contract send from anywhere in the delivery (the import path never applies those on their own:
+		// only the content check can object), or else a block that an earlier element of the delivery confirms
+		var sends, earlier []*nom.AccountBlock
+		for j := range batch {
+			for _, b := range batch[j].AccountBlocks {
+				if b.BlockType == nom.BlockTypeContractSend {
+					sends = append(sends, b)
+				} else if j < i {
+					earlier = append(earlier, b)
+				}
+			}
+		}
+		if len(sends) > 0 {
+			d.AccountBlocks = append(d.AccountBlocks, simnet.CloneBlock(sends[r.Intn(len(sends))]))
+			return true
+		}
+		if len(earlier) > 0 {
+			d.AccountBlocks = append(d.AccountBlocks, simnet.CloneBlock(earlier[r.Intn(len(earlier))]))
+			return true
 		}
 		return false
 	case "block-extra":
@@ -319,9 +348,17 @@ func c16Run(c *fw.C, caseID string) {
 		c.Count("wrong_producers_taken_from_the_schedule_of_the_nodes_own_branch", c16WrongProducerFromOwnBranch)
 		c16WrongProducerFromOwnBranch = 0
 	}()
+	caseIdx, corruptions := 0, 0
+	fmt.Sscanf(caseID, "net:%d", &caseIdx)
 	nDeliveries := 14
+	everHeld := map[types.Hash]bool{} // every momentum the node has held (and verified) at some point of the case
 	for di := 0; di < nDeliveries; di++ {
 		L := c16ChainHashes(N)
+		onChain := map[types.Hash]bool{}
+		for _, h := range L {
+			everHeld[h] = true
+			onChain[h] = true
+		}
 		dumpBefore := N.DumpFrontier()
 		// choose a delivery
 		shape := []string{"side-chain", "side-chain", "side-chain-corrupt", "side-chain-corrupt", "extension", "extension-corrupt", "known-prefix", "overlap", "non-contiguous", "gap-above-frontier", "from-genesis", "single-old"}[r.Intn(12)]
@@ -411,7 +448,11 @@ func c16Run(c *fw.C, caseID string) {
 			continue
 		}
 		if strings.HasSuffix(shape, "-corrupt") {
-			kind = c16Kinds[r.Intn(len(c16Kinds))]
+			// kinds rotate (case index and corruptions so far decide) instead of being drawn: every kind is applied
+			// several times in every run of the quick tier, whatever the seed
+			kind = c16Kinds[(caseIdx*5+corruptions)%len(c16Kinds)]
+			corruptions++
+			_ = r.Intn(len(c16Kinds)) // keeps the rest of the case's random choices where they were
 			corruptAt = r.Intn(len(batch))
 			if shape == "side-chain-corrupt" && r.Intn(2) == 0 {
 				// aim at the interesting window: the failing element sits around the length of the node's own branch
@@ -420,6 +461,20 @@ func c16Run(c *fw.C, caseID string) {
 				pos := int(overlap) + own - 2 + r.Intn(4)
 				if pos >= int(overlap) && pos < len(batch) {
 					corruptAt = pos
+				}
+			}
+			if kind == "bad-signature" || kind == "wrong-producer" || kind == "non-pillar-producer" {
+				// these keep or re-make the hash of an element: aim preferably at a momentum the node held and verified
+				// before and has left since (whatever it remembers about it must not let the broken copy pass)
+				var was []int
+				for i, d := range batch {
+					if everHeld[d.Momentum.Hash] && !onChain[d.Momentum.Hash] {
+						was = append(was, i)
+					}
+				}
+				if len(was) > 0 && r.Intn(3) != 0 {
+					corruptAt = was[r.Intn(len(was))]
+					c.Count("corruption_aimed_at_a_momentum_the_node_held_before "+kind, 1)
 				}
 			}
 			if kind == "block-extra-on-empty" {
@@ -434,7 +489,15 @@ func c16Run(c *fw.C, caseID string) {
 				}
 			}
 			c16LastMutatedBlock = nil
-			if !c16Corrupt(batch, corruptAt, kind, r) {
+			applied := c16Corrupt(batch, corruptAt, kind, r)
+			for off := 1; !applied && off < len(batch); off++ {
+				// not applicable to that element (e.g. nothing to reorder in it): the next one that it applies to
+				if applied = c16Corrupt(batch, (corruptAt+off)%len(batch), kind, r); applied {
+					corruptAt = (corruptAt + off) % len(batch)
+				}
+			}
+			if !applied {
+				c.Count("corruption_not_applicable "+kind, 1)
 				corruptAt, kind = -1, ""
 			} else if kind == "block-mutated" && c16LastMutatedBlock != nil && N.Chain.GetPatch(c16LastMutatedBlock.Address, c16LastMutatedBlock.Identifier()) != nil {
 				// the node already holds the genuine block with this identifier in its pool (left there by an earlier
@@ -476,6 +539,17 @@ func c16Run(c *fw.C, caseID string) {
 			outcome = "error"
 		}
 		c.Distinct(fmt.Sprintf("%s/depth=%s/%s@%s/%s/%s", shape, depthClass, kind, posClass, exp.class, outcome))
+		if kind != "" {
+			es := fmt.Sprint(err)
+			if len(es) > 60 {
+				es = es[:60]
+			}
+			c.SetAdd("corruption_outcomes", fmt.Sprintf("%s expected=%s -> %s %s", kind, exp.class, outcome, es))
+			c.Count("corruption_applied "+kind, 1)
+			if exp.class == "fail-at" {
+				c.Count("corruption_reached_by_verification "+kind, 1)
+			}
+		}
 		witness := func(extra map[string]interface{}) map[string]interface{} {
 			m := map[string]interface{}{"shape": shape, "local_height": len(L), "fork_point": fp, "batch_from": batch[0].Momentum.Height, "batch_len": len(batch),
 				"corrupt_kind": kind, "corrupt_at": corruptAt, "mutated_block": c16LastMutated, "returned_index": idx, "returned_err": fmt.Sprint(err), "expected": exp.class, "height_after": len(after)}
